@@ -46,6 +46,9 @@ namespace cv = covfie::vector;
 """
 
 
+GLOBAL_EXTRA = []      # extra compiler flags for every build (used to re-run universes over mimic probes)
+
+
 class Harness:
     def __init__(self, name, args, body, out=None, meta=None, ret=None):
         """args: [(ctype, role)], role is any hashable label, e.g. ('c', 0).
@@ -100,7 +103,7 @@ def build(harnesses, tag, extra=(), ndebug=True, per_tu=12, opt="-O2", includes=
             fh.write(includes)
             for h in hs:
                 fh.write(h.code())
-        ok, err, cmd = ir.clang_ir(src, ll, extra=extra, ndebug=ndebug, opt=opt)
+        ok, err, cmd = ir.clang_ir(src, ll, extra=tuple(extra) + tuple(GLOBAL_EXTRA), ndebug=ndebug, opt=opt)
         if not ok:
             return False, err, None
         j = ir.irdump(ll, prefixes=("H_",), callees=callees, all_=dump_all)
